@@ -234,6 +234,28 @@ def check_hist(ctx, depth, first):
     ctx.validate_paths(paths, 12)
 
 
+def check_var_limit(ctx):
+    base = ctx.sandbox_base(8, "base")
+    base2 = ctx.sandbox_base(8, "base2")
+    ctx.assume(base != base2)
+    big = ctx.sym("big", 32)
+    small = ctx.sym("small", 32)
+    first = ctx.sym("first", 32)
+    ctx.assume(z3.UGE(big, 16), z3.ULE(big, 200), z3.UGE(small, 2), z3.ULE(small, 6), z3.ULE(first, 1))
+    paths = ctx.run("k_var_limit", [base, base2, big, small, first])
+    for q in paths:
+        toks = [e[2] if not isinstance(e[2], int) else BV(e[2], 64) for e in (q.user.get("log") or []) if e[0] == 8]
+        if toks:
+            ctx.require(q, z3.And(*[z3.And(t != 0, z3.ULT(t, zext(small, 64))) for t in toks]),
+                        "every token issued by the small sandbox is non-zero and below its own memory size, whichever sandbox of the type was used first")
+        if q.status == "abort":
+            ctx.require(q, z3.ULE(zext(small, 64), BV(len(toks) + 1, 64)), "registration is refused only when every token of the small sandbox is in use")
+        elif q.status == "ret":
+            ctx.require(q, z3.BoolVal(len(toks) == 4), "four registrations succeeded")
+    ctx.only(paths, "ret", "abort")
+    ctx.expect(paths, ret=1, abort=1)
+
+
 def check_stale(ctx):
     base = ctx.sandbox_base(2)
     w = ctx.sym("which", 32)
@@ -374,5 +396,6 @@ def jobs(tier, seed):
     out.append(Job("C15_refused_exc", '#include "C15_exc.inc"\n', [dict(name="refused app-pointer registration leaves no token (exceptions)", fn=check_refused_exc, unwind=400)],
                    native=False, flags=["-D_GLIBCXX_EXTERN_TEMPLATE=0"]))
     out.append(Job("C15_bm_kinds", '#include "C15_bm.inc"\n', [dict(name="BM app pointers to int and to function-pointer objects", fn=check_bm_kinds, unwind=400)], native=False))
+    out.append(Job("C15_var_limit", '#include "C15_var.inc"\n', [dict(name="per-sandbox token limit on a backend with per-sandbox memory size", fn=check_var_limit, unwind=400)], native=False))
     out.append(Job("C15_owner_stale", osrc, [dict(name="stale token lookup", fn=check_stale, unwind=400)]))
     return out
